@@ -209,6 +209,48 @@ struct Acc {
     pointwise_crosschecks: usize,
 }
 
+fn unicode_table(pat: &str) -> Option<CharSet> {
+    regex_syntax::Parser::new().parse(pat).ok().and_then(|h| match h.kind() {
+        regex_syntax::hir::HirKind::Class(regex_syntax::hir::Class::Unicode(c)) => {
+            let ranges: Vec<(char, char)> = c.ranges().iter().map(|r| (r.start(), r.end())).collect();
+            Some(CharSet::from_pred(|c| ranges.iter().any(|(a, b)| *a <= c && c <= *b)))
+        }
+        _ => None,
+    })
+}
+
+/// `\w`, `[:word:]`, `\d`, `\s` beyond ASCII: the table obtained from scnr must lie between the sets
+/// on which scnr's own documentation and UTS #18 agree (word: Alphabetic + Nd + Pc + Join_Control +
+/// Mn at least, Alphabetic + N + Pc + Join_Control + M at most; digit: Nd at least, N at most;
+/// space: White_Space), compared on the scalars assigned in the independent tables' Unicode
+/// version, 64 scalars tolerance.
+pub fn perl_anchor(key: &str, got: &CharSet) -> Option<String> {
+    let u = |p: &str| unicode_table(p).expect("regex-syntax knows this class");
+    let assigned = u("\\p{Assigned}");
+    let or = |a: &CharSet, b: &CharSet| a.zip(b, |x, y| x | y);
+    let (lower, upper) = match key {
+        "\\w" | "[:word:]" => {
+            let (alpha, nd, n_all, pc, jc, mn, m_all) = (u("\\p{Alphabetic}"), u("\\p{Nd}"), u("\\p{N}"), u("\\p{Pc}"), u("\\p{Join_Control}"), u("\\p{Mn}"), u("\\p{M}"));
+            (or(&or(&or(&alpha, &nd), &or(&pc, &jc)), &mn), or(&or(&or(&alpha, &n_all), &or(&pc, &jc)), &m_all))
+        }
+        "\\d" => (u("\\p{Nd}"), u("\\p{N}")),
+        "\\s" => (u("\\p{White_Space}"), u("\\p{White_Space}")),
+        _ => return None,
+    };
+    let missing = lower.zip(got, |l, g| l & !g).zip(&assigned, |d, a| d & a);
+    let extra = got.zip(&upper, |g, u| g & !u).zip(&assigned, |d, a| d & a);
+    if missing.count() + extra.count() > 64 {
+        return Some(format!(
+            "{key}: {} scalars of its documented core are not members (first: {:?}), {} members lie outside every documented reading (first: {:?})",
+            missing.count(),
+            missing.first_difference(&CharSet::empty()),
+            extra.count(),
+            extra.first_difference(&CharSet::empty())
+        ));
+    }
+    None
+}
+
 pub fn run(tier: Tier) -> ! {
     let mut run = Run::new("C08", tier);
     let start = Instant::now();
@@ -249,6 +291,37 @@ pub fn run(tier: Tier) -> ! {
     anchor("\\d", "0123456789", &mut viol);
     anchor("\\s", "\t\n\x0B\x0C\r ", &mut viol);
     anchor("\\w", "0123456789ABCDEFGHIJKLMNOPQRSTUVWXYZabcdefghijklmnopqrstuvwxyz_", &mut viol);
+    // independent anchors of the named atoms beyond ASCII (the atoms stay opaque in the algebra
+    // below; here their tables are tied to Unicode data scnr does not use: regex-syntax's tables).
+    // A binary property scnr documents must be that property (tolerance for differing Unicode
+    // versions: 2 % of the smaller of set and complement, at least 64 scalars); \w, \d, \s and
+    // [[:word:]] must lie between the sets on which scnr's documentation and UTS #18 agree.
+    let uni = unicode_table;
+    // scalars assigned in the Unicode version of the independent tables; the comparison is
+    // restricted to them (scnr's tables may belong to a later version that assigns more)
+    let assigned = uni("\\p{Assigned}").expect("regex-syntax knows Assigned");
+    let mut anchored = 0usize;
+    for n in NAMED.iter().chain(["XID_Start"].iter()) {
+        let key = format!("\\p{{{n}}}");
+        if let (Some(got), Some(truth)) = (tables.tables.get(&key), uni(&key)) {
+            anchored += 1;
+            let diff = truth.zip(got, |x, y| x ^ y).zip(&assigned, |d, a| d & a);
+            let differing = diff.count();
+            let size = truth.count().min(truth.complement().count()).max(3200);
+            if differing * 50 > size {
+                let first = diff.first_difference(&CharSet::empty());
+                viol.add("", || Violation { key: String::new(), summary: format!("{key} does not denote its Unicode property: {differing} scalars differ from the Unicode tables (first: {first:?})"), replay: json!({"pattern": key, "input": "every scalar value", "differing": differing, "first": format!("{first:?}")}) });
+            }
+        }
+    }
+    for key in ["\\w", "[:word:]", "\\d", "\\s"] {
+        if let Some(got) = tables.tables.get(key) {
+            anchored += 1;
+            if let Some(problem) = perl_anchor(key, got) {
+                viol.add("", || Violation { key: String::new(), summary: problem.clone(), replay: json!({"pattern": key, "input": "every scalar value", "problem": problem}) });
+            }
+        }
+    }
     // top level: a literal matches only itself, `.` everything but \n and \r
     let mut toplevel = 0;
     for (pat, want) in [("a", Some('a')), ("é", Some('é')), ("\\.", Some('.')), ("\\n", Some('\n')), ("\\x41", Some('A')), ("\\u{1F600}", Some('😀')), ("\\-", Some('-')), (".", None)] {
@@ -417,6 +490,7 @@ pub fn run(tier: Tier) -> ! {
     cov.insert("expressions_not_checked".into(), json!(total.rejected.iter().take(20).collect::<Vec<_>>()));
     cov.insert("expressions_not_checked_count".into(), json!(total.rejected.len()));
     cov.insert("named_atoms_tabulated".into(), json!(tables.tables.len()));
+    cov.insert("named_atoms_anchored_to_independent_unicode_tables".into(), json!(anchored));
     cov.insert("named_atoms_that_do_not_build".into(), json!(unsupported_atoms.iter().map(|(k, e)| format!("{k}: {e}")).collect::<Vec<_>>()));
     cov.insert("oracle_pointwise_crosschecks".into(), json!(total.pointwise_crosschecks));
     let mut fams = fams;
